@@ -195,3 +195,21 @@ Proof.
   rewrite Bltb_correct; [|exact Fr|exact S_eps_finite]. rewrite Rr.
   apply Rlt_bool_true. exact S_eps_pos.
 Qed.
+
+(* a coordinate within +-MAX_COORDINATE_VALUE passes the f64 limit test of read_point *)
+Lemma coord64_in_limit n : Z.abs n <= 131072 ->
+  D.lt (D.of_Z n) (D.neg (D.of_Z 131072)) = false /\ D.gt (D.of_Z n) (D.of_Z 131072) = false /\
+  D.is_nan (D.of_Z n) = false /\ is_finite (D.of_Z n) = true.
+Proof.
+  intros H. assert (Hn : Z.abs n < 2 ^ 53) by (change (2 ^ 53) with 9007199254740992; lia).
+  assert (Hl : Z.abs 131072 < 2 ^ 53) by (cbn; lia).
+  destruct (of_Z_exact 53 1024 Hp64 He64 n Hn) as [Rn Fn].
+  destruct (fneg_of_Z 53 1024 Hp64 He64 131072 Hl ltac:(lia)) as [Rm Fm].
+  repeat split.
+  - unfold D.lt, D.neg, D.of_Z, flt. rewrite Bltb_correct by assumption. rewrite Rn, Rm.
+    apply Rlt_bool_false. apply IZR_le. lia.
+  - unfold D.gt, fgt. change (Bltb (D.of_Z 131072) (D.of_Z n)) with (flt 53 1024 (D.of_Z 131072) (D.of_Z n)).
+    unfold D.of_Z. rewrite (flt_of_Z 53 1024 Hp64 He64 131072 n Hl Hn). apply Z.ltb_ge. lia.
+  - unfold D.is_nan, fis_nan, D.of_Z. destruct (of_Z 53 1024 Hp64 He64 n); try reflexivity; discriminate Fn.
+  - exact Fn.
+Qed.
